@@ -605,7 +605,7 @@ func c13CmdCheck(c c13Case) *kit.Verdict {
 	files := &cmdFiles{}
 	defer files.cleanup()
 	args := append([]string{}, strings.Fields(c.Stack)...)
-	args = append(args, "-i", "lo", "--srcip", c01SrcIP, "--json", "--exit-delay", "5ms")
+	args = append(args, "-i", "lo", "--srcip", c01SrcIP, "--json") // default exit delay: queued error records are drained before the exit
 	if c.Cache != "none" {
 		var sb strings.Builder
 		for _, a := range c.Cached {
